@@ -2,6 +2,7 @@
 From Base Require Import Prelude Sx Json JsonText.
 From Coq Require Import Permutation.
 From C01 Require Import Spec Model Proofs.
+From C01 Require Roundtrip.
 
 (** The compact serializer applied to the stored form (UTF-8 strings, BTreeMap objects) of any
     representable value emits exactly the specification's canonical encoding: members in
@@ -53,3 +54,21 @@ Theorem C01_numbers_exact :
 Proof. exact classify_number_spec. Qed.
 Eval compute in "PA:C01_numbers_exact"%string.
 Print Assumptions C01_numbers_exact.
+
+(** Parsing the canonical string back gives an equal value: for every well-formed value with
+    representable integers and nesting below serde_json's recursion limit, the text parser
+    accepts [print j], and conversion returns [j] with the same canonical string. *)
+Theorem C01_canon_roundtrip :
+  forall j, wf j -> Roundtrip.ints_ok j = true -> Roundtrip.jdepth j < 128 ->
+  canon_text (print j) = Some (j, print j).
+Proof. exact Roundtrip.canon_roundtrip. Qed.
+Eval compute in "PA:C01_canon_roundtrip"%string.
+Print Assumptions C01_canon_roundtrip.
+
+(** Hence the canonical string determines the value (distinct values never share a string). *)
+Theorem C01_print_injective :
+  forall j1 j2, wf j1 -> wf j2 -> Roundtrip.ints_ok j1 = true -> Roundtrip.ints_ok j2 = true ->
+  Roundtrip.jdepth j1 < 128 -> Roundtrip.jdepth j2 < 128 -> print j1 = print j2 -> j1 = j2.
+Proof. exact Roundtrip.print_injective. Qed.
+Eval compute in "PA:C01_print_injective"%string.
+Print Assumptions C01_print_injective.
